@@ -1,7 +1,19 @@
 import Tahoe.Mutable.AuthenticLemmas
+import Tahoe.Mutable.RetrieveSelectLemmas
 /-! C10 — mutable reads return only published versions (property theorems).
 Cryptographic assumptions are explicit hypotheses; `Tahoe.C10.Inst` shows they are jointly
-satisfiable by a concrete (toy, symbolic) instance, so no theorem below is vacuous. -/
+satisfiable by a concrete (toy, symbolic) instance, so no theorem below is vacuous.
+
+## Coverage of the statement
+
+| clause of the statement | theorem(s) on the model | rest |
+|---|---|---|
+| a read returns the plaintext of a version a write-cap holder published, or an error, never other bytes | `accepted_version_published` (one share: prefix + blocks are a published version's), `installed_key_genuine`, `signed_root_never_reset`, `accepted_blocks_hash_to_signed_root`, `retrieve_validates_only_published_blocks` (a whole Retrieve, any sequence of rejected shares); `reset_variant_counterexample` shows the invariant is load-bearing | decoding k validated block sets to the plaintext is C36/C09; the servermap's per-update signature cache (`_valid_versions`, keyed on the whole verinfo) is **monitor only** (prefix-alteration family) |
+| … for any tampering: flipped bytes, forged signatures or keys, mixed versions, another file's shares | same theorems (the adversary supplies every field of every share; `World.unforgeable`, `fp_inj`, `chain_sound`, `bht_inj` are the hypotheses); `fieldDecision_table` for single-field alterations | which bytes of the two hash-chain fields a read consults: **correspondence/monitor only** |
+| if at least k intact shares of the newest published version are reachable, the read succeeds | `intact_share_accepted` (an intact share is accepted); `retrieve_succeeds_with_k_intact_partial` (the Retrieve loop ends with k good shares — guard: only the bad share is dropped, or one share per server); `readOnce_succeeds_partial` (one read, given `best` = that version). **Not true of the code as it is**: `drop_server_counterexample`, `offset_table_counterexample` (both open findings, reproduced by the monitor) | that `best_recoverable_version` is the newest published version, the partial first survey (MODE_READ) and its retry: **correspondence only** (`vm`, `rd` driver ops) |
+| holders of only a read-cap or verify-cap, and storage servers, cannot create a version that readers accept | `readcap_cannot_publish` (Dolev–Yao closure: no signature on an unpublished prefix, nor the signing or write key, is derivable) with `accepted_version_published` | computational soundness of RSA/SHA-256d: assumed |
+| SDMF and MDMF | the model is format-independent (salt inside the prefix for SDMF, hashed with the blocks for MDMF: `Prims.bhtRoot`) | both formats in every harness family |
+-/
 namespace Tahoe.C10
 open Tahoe.Authentic
 
@@ -137,6 +149,77 @@ forged ones keep being rejected afterwards -/
 example : (Toy.run (some 0) [.offer 0 1, .damaged 1 0 7, .offer 2 0, .offer 3 1, .fail 4, .offer 5 0]).1
     = [false, false, true, false, false, true] := by decide
 example : (Toy.run (some 0) [.offer 0 1, .damaged 1 0 7, .offer 2 0, .offer 3 1]).2.tree = some (.fam 0) := by decide
+
+/-! ### liveness: which shares a Retrieve uses, which version a read goes for -/
+section Liveness
+open Tahoe.RetrSel
+
+/- Full statement (the property's liveness clause on the model): for every servermap `m`, `k`, and
+   every published newest version `v` with at least k good shares of `v` in `m`,
+       read dropSrv k first m ≠ none.
+   It does NOT hold for the code as it is, for two independent reasons, each with its witness below:
+   `drop_server_counterexample` (a bad share takes its server's other shares with it) and
+   `offset_table_counterexample` (the unsigned offsets table is part of the version identity).
+   Proved: the Retrieve level under the guard "only the bad share is dropped, or every server holds
+   one share" (`retrieve_succeeds_with_k_intact_partial`) and its lifting to one read on a map whose
+   best version is the one with the good shares (`readOnce_succeeds_partial`).  Missing for the full
+   statement: that `best` picks the published version -- false when offsets differ between shares. -/
+
+/-- **k intact shares suffice for a Retrieve** (partial: under the guard).  Shares of the version being
+retrieved, one server per share number, at least k of them good: the loop ends with exactly k good
+shares, however many bad ones it meets first and in whatever positions. -/
+theorem retrieve_succeeds_with_k_intact_partial (dropSrv : Bool) (k : Nat) (shares : List MShare)
+    (hn : (shares.map (·.shnum)).Nodup) (hk : k ≤ (shares.filter (·.good)).length)
+    (guard : dropSrv = false ∨ (shares.map (·.server)).Nodup) :
+    ∃ used, retrieve dropSrv k shares = .ok used ∧ used.length = k ∧
+      ∀ n, n ∈ used → ∃ s, s ∈ shares ∧ s.good = true ∧ s.shnum = n := by
+  have h := retrLoop_fixed_ok k (shares.length + 1) [] shares (by simpa [shn] using hn) (by simp) (by simp)
+    (by simpa using hk) (by omega)
+  simp only [List.nil_append] at h
+  unfold retrieve
+  rcases guard with g | g
+  · rw [g]; exact h
+  · cases dropSrv with
+    | false => exact h
+    | true => rw [retrLoop_dropSrv_eq k _ shares [] g hn]; exact h
+
+example : retrieve true 2 [⟨0, 0, 1, 1, 1, 0, false⟩, ⟨1, 1, 1, 1, 1, 0, true⟩, ⟨2, 2, 1, 1, 1, 0, false⟩, ⟨3, 3, 1, 1, 1, 0, true⟩]
+    = .ok [1, 3] := by decide
+
+/-- the code as it is: 2-of-3, server 0 holds shares 0 and 2, server 1 holds share 1, share 0 is bad.
+Two good shares are there; the loop drops server 0 with its good share 2 and fails.  Dropping only the
+bad share succeeds on the same input. -/
+theorem drop_server_counterexample :
+    let shares : List MShare := [⟨0, 0, 1, 1, 1, 0, false⟩, ⟨1, 1, 1, 1, 1, 0, true⟩, ⟨2, 0, 1, 1, 1, 0, true⟩]
+    (shares.filter (·.good)).length = 2 ∧ retrieve true 2 shares = .fail ∧ retrieve false 2 shares = .ok [1, 2] := by
+  decide
+
+/-- one read on a servermap whose best version has k good shares succeeds with that version (partial:
+same guard; that `best` is the published newest version is an assumption here, see above). -/
+theorem readOnce_succeeds_partial (dropSrv : Bool) (k : Nat) (m : List MShare) (v : VerInfo)
+    (hb : best k m = some v) (hn : ((sharesOf m v).map (·.shnum)).Nodup)
+    (hk : k ≤ ((sharesOf m v).filter (·.good)).length)
+    (guard : dropSrv = false ∨ ((sharesOf m v).map (·.server)).Nodup) :
+    readOnce dropSrv k m = some v := by
+  obtain ⟨used, hu, _, _⟩ := retrieve_succeeds_with_k_intact_partial dropSrv k (sharesOf m v) hn hk guard
+  simp [readOnce, hb, hu]
+
+example : readOnce true 1 [⟨0, 0, 3, 7, 1, 0, true⟩, ⟨1, 1, 2, 5, 1, 0, true⟩] = some (3, 7, 1, 0) := by decide
+
+/-- the open finding, on the model of the code as it is: a 1-of-2 file, share 0 intact, share 1 with an
+altered (unsigned) offsets table that sorts higher and does not read.  The altered share is a
+recoverable "version" of its own, `best` picks it, its Retrieve fails, the retry on the complete map
+picks it again: the read fails although k = 1 intact share of the published version is reachable.
+(With offsets taken out of the version identity -- same input, `offs` equal -- the read succeeds.) -/
+theorem offset_table_counterexample :
+    let intact : MShare := ⟨0, 0, 3, 7, 1, 0, true⟩
+    let altered : MShare := ⟨1, 1, 3, 7, 1, 1, false⟩
+    best 1 [intact, altered] = some (3, 7, 1, 1) ∧
+    read true 1 [intact, altered] [intact, altered] = none ∧ read false 1 [intact, altered] [intact, altered] = none ∧
+    read true 1 [intact, { altered with offs := 0 }] [intact, { altered with offs := 0 }] = some (3, 7, 1, 0) := by
+  decide
+
+end Liveness
 
 /-! ### read-cap / verify-cap holders and servers cannot make a version -/
 
